@@ -579,12 +579,98 @@ func runC19ContainerRef(c *Ctx) {
 			ok := false
 			desc := trunc(termOf(v).String(), 100)
 			if isIdx {
-				lf := termOf(ia.X).lastField()
-				ok = lf == "Containers" || lf == "InitContainers"
+				// the indexed slice is the pod's list itself, or a copy of its header kept in a local table / struct
+				// (the backing array is shared): every origin of the slice value must be one of the pod's lists
+				origins := sliceOrigins(ia.X, 4)
+				ok = len(origins) > 0
+				for _, o := range origins {
+					lf := termOf(o).lastField()
+					if lf != "Containers" && lf != "InitContainers" {
+						ok = false
+					}
+				}
 			}
 			c.Check(ok, "O7", "PROV", funcKey(fn)+": PodContainerRef.Container addresses an element of the pod's container list", instrPos(in), desc,
 				"the container reference handed to the admission mutator does not point into pod.Spec.Containers / InitContainers ("+desc+"): the env vars and config-map source are added to a copy and never reach the pod")
 		}
 	}
 	c.Floor("O7", "PROV container references", n, 2)
+}
+
+// sliceOrigins: where a slice value comes from, seeing through local structs and local tables of structs: a load of
+// field f of a local struct is traced to the stores into that field, to whole-struct copies into the local (and then
+// to field f of what was copied), and to the elements of a local array / slice literal.
+func sliceOrigins(v ssa.Value, depth int) []ssa.Value {
+	if depth == 0 {
+		return []ssa.Value{v}
+	}
+	ld, ok := v.(*ssa.UnOp)
+	if !ok || ld.Op != token.MUL {
+		return []ssa.Value{v}
+	}
+	fa, ok := ld.X.(*ssa.FieldAddr)
+	if !ok {
+		return []ssa.Value{v}
+	}
+	out := fieldOrigins(fa.X, fa.Field, depth-1, map[ssa.Value]bool{})
+	if len(out) == 0 {
+		return []ssa.Value{v}
+	}
+	return out
+}
+
+// fieldOrigins: the values field f of the struct(s) at address base can hold, for a base that is function-local.
+func fieldOrigins(base ssa.Value, f int, depth int, seen map[ssa.Value]bool) []ssa.Value {
+	if seen[base] || depth < 0 {
+		return nil
+	}
+	seen[base] = true
+	var out []ssa.Value
+	storesInto := func(addr ssa.Value) {
+		refs := addr.Referrers()
+		if refs == nil {
+			return
+		}
+		for _, r := range *refs {
+			switch x := r.(type) {
+			case *ssa.FieldAddr:
+				if x.X != addr || x.Field != f {
+					continue
+				}
+				for _, r2 := range *x.Referrers() {
+					if st, ok := r2.(*ssa.Store); ok && st.Addr == ssa.Value(x) {
+						out = append(out, sliceOrigins(st.Val, depth)...)
+					}
+				}
+			case *ssa.Store:
+				if x.Addr != addr {
+					continue
+				}
+				// whole-struct copy: *addr = *other
+				if ld, ok := x.Val.(*ssa.UnOp); ok && ld.Op == token.MUL {
+					out = append(out, fieldOrigins(ld.X, f, depth-1, seen)...)
+				}
+			}
+		}
+	}
+	switch b := base.(type) {
+	case *ssa.Alloc:
+		storesInto(b)
+	case *ssa.IndexAddr:
+		// an element of a local array, or of a slice of one: any element
+		arr := b.X
+		if sl, ok := arr.(*ssa.Slice); ok {
+			arr = sl.X
+		}
+		a, ok := arr.(*ssa.Alloc)
+		if !ok {
+			return nil
+		}
+		for _, r := range *a.Referrers() {
+			if ia, ok := r.(*ssa.IndexAddr); ok && ia.X == ssa.Value(a) {
+				storesInto(ia)
+			}
+		}
+	}
+	return out
 }
